@@ -61,6 +61,7 @@ pub fn seg_strategy(stream_len_hint: usize) -> impl Strategy<Value = Seg> {
         2 => Just(Seg::Whole),
         2 => Just(Seg::OneByte),
         2 => prop_oneof![1..8usize, 8..200usize, 4000..4200usize].prop_map(Seg::Chunk),
+        1 => net_chunk().prop_map(Seg::Chunk),
         4 => prop::collection::vec(0..n, 1..6usize).prop_map(Seg::Cuts),
         2 => (prop_oneof![Just(4096usize), Just(8192), Just(16384)], 0..5usize, prop::collection::vec(0..n, 0..3usize))
             .prop_map(|(b, d, mut more)| {
@@ -68,6 +69,14 @@ pub fn seg_strategy(stream_len_hint: usize) -> impl Strategy<Value = Seg> {
                 Seg::Cuts(more)
             }),
     ]
+}
+
+/// Read sizes a network stack produces (MSS/MTU values, socket buffer sizes) - not the powers of two a
+/// tester would pick first.
+pub const NET_CHUNKS: [usize; 12] = [536, 576, 1000, 1024, 1220, 1448, 1460, 1500, 2048, 2920, 9000, 65535];
+
+pub fn net_chunk() -> impl Strategy<Value = usize> {
+    (0..NET_CHUNKS.len()).prop_map(|i| NET_CHUNKS[i])
 }
 
 #[derive(Debug)]
